@@ -46,7 +46,19 @@ def run(ctx):
             # chains of candidates at low thresholds: a prediction whose best reference is taken falls back to its second one
             p, r = impl.chain_pair(rng)
             cfg["mmetric"], cfg["mthr"] = rng.choice(["IOU", "DSC"]), rng.choice([0.05, 0.1, 0.2, 0.25])
-        if it == "semantic":
+        if it == "unmatched" and rng.random() < 0.15:
+            # sparse ids drawn from ONE pool for both sides, some of them far away (class * 10^7 + instance): a prediction's id is often
+            # the id of a reference it is NOT matched to, so a relabelling applied entry by entry instead of at once would chain
+            pool = [2, 3, 5, 7, 9, 11, 20000000, 20000001, 30000005]
+            def renum(a):
+                labs = [int(x) for x in np.unique(a) if x]
+                new = rng.sample(pool, len(labs)) if len(labs) <= len(pool) else labs
+                out = np.zeros(a.shape, "uint32")
+                for l, n_ in zip(labs, new):
+                    out[a == l] = n_
+                return out
+            p, r = renum(p), renum(r)
+        elif it == "semantic":
             p, r = (p != 0).astype("uint8"), (r != 0).astype("uint8")
         elif rng.random() < 0.3:
             # label values at the top of the dtype on ONE side (the relabelling only rewrites the prediction, so the fresh labels
